@@ -133,10 +133,10 @@ CHECKS = {
  'C09': dict(
    text='Machine-checked proof (Coq) about the model of the ZINC reader (every pyparsing rule with its parse action, parse_grid / parse_scalar / parser.parse exception handling): for EVERY text grid / document parsing '
         'returns grids or raises ZincParseException; every parse action at every nesting depth raises ValueError only, so scalar parsing raises only ValueError-family exceptions; the un-escaping of string / URI literals never raises; '
-        'a missing or malformed version header, an unterminated string / URI, and [ { < under version 2.0 are always rejected. Termination is Coq\'s totality of the model. Tied by the reader model vs the implementation on seeds, '
+        'a missing or malformed version header, an unterminated string / URI, and [ { < under version 2.0 are always rejected. Termination is Coq\'s totality of the model, and the fuel of the recursive rules is proved adequate '
+        '(C09_fuel_adequate: every nesting level consumes a character, so the OutOfFuel marker never comes out for any text). Tied by the reader model vs the implementation on seeds, '
         'byte-level mutations at every position, 42 structurally broken documents and arbitrary strings; the search checks exception class, line / column bounds and rejection on the implementation.',
-   note='PARTIAL: the model\'s OutOfFuel marker is not excluded by proof (fuel = length of the text + 2; every nesting level consumes a bracket) - an OutOfFuel answer is reported as a correspondence break. '
-        'Line / column of the exception are checked on the implementation only. RecursionError for very deep nesting is outside the quantifier (depth <= 3). Print Assumptions: closed under the global context.',
+   note='Line / column of the exception are checked on the implementation only. RecursionError for very deep nesting is outside the quantifier (depth <= 3). Print Assumptions: closed under the global context.',
    technique='Coq proof (exception-safety predicate closed under the parser combinators, induction on nesting fuel) + mutation-based correspondence',
    design='DESIGN.md §3 C09'),
  'C10': dict(
